@@ -99,6 +99,24 @@ End Spec.
    function to every entry; everything else of the mesh is shared.  The model of the Position array: *)
 Definition mesh_map {F : Type} (f : vec3 F -> vec3 F) (positions : list (vec3 F)) : list (vec3 F) := map f positions.
 
+(* geometry.NewAABBFromPoints(points...) (hand-written model, binding H: a variadic fold with math.Inf sentinels is
+   outside the translator's subset).  The Go loop folds componentwise min / max over all points starting from
+   (+Inf, -Inf), i.e. from the first point over the rest; then  area = max - min,  center = area/2 + min  and the
+   TRANSLATED constructor NewAABB(center, area).  [p0] is the first point, [pts] the remaining ones. *)
+Section BoxFromPoints.
+Context {F : Type} {FO : Carrier F}.
+Definition pts_lo (p0 : vec3 F) (pts : list (vec3 F)) : vec3 F :=
+  mkV3 (fold_left (fun acc p => cmin (v3x p) acc) pts (v3x p0)) (fold_left (fun acc p => cmin (v3y p) acc) pts (v3y p0))
+       (fold_left (fun acc p => cmin (v3z p) acc) pts (v3z p0)).
+Definition pts_hi (p0 : vec3 F) (pts : list (vec3 F)) : vec3 F :=
+  mkV3 (fold_left (fun acc p => cmax (v3x p) acc) pts (v3x p0)) (fold_left (fun acc p => cmax (v3y p) acc) pts (v3y p0))
+       (fold_left (fun acc p => cmax (v3z p) acc) pts (v3z p0)).
+Definition box_from_points (p0 : vec3 F) (pts : list (vec3 F)) : Aabb.AABB F :=
+  let lo := pts_lo p0 pts in let hi := pts_hi p0 pts in
+  let area := v3_sub hi lo in
+  Aabb.NewAABB (v3_add (v3_scale area (cofQ 1 2)) lo) area.
+End BoxFromPoints.
+
 (* boxes over R: the closed box [lo,hi] *)
 Definition in_box (lo hi p : vec3 R) : Prop :=
   (v3x lo <= v3x p <= v3x hi /\ v3y lo <= v3y p <= v3y hi /\ v3z lo <= v3z p <= v3z hi)%R.
